@@ -484,7 +484,7 @@ void h_create(void) {
   carquet_writer_options_t opt;
   carquet_error_t *error = mk_err();
   G_path_str[7] = 0;
-  G_stream_open = 0; G_arena_live = 0; G_rg_live = 0;
+  G_stream_open = 0; G_arena_live = 0; G_rg_live = 0; G_arena = NULL; G_fopen_ok = 0;
   G_fopen_calls = 0; G_fclose_calls = 0; G_remove_calls = 0; G_arena_destroy_calls = 0;
   uint64_t req0 = G_bytes_requested;
   carquet_writer_t *w = carquet_writer_create(G_path_str, sc, nondet_bool() ? &opt : NULL, error);
@@ -495,15 +495,15 @@ void h_create(void) {
     carquet_writer_abort(w);            /* releases everything (c18_abort_b) */
   } else {
     __CPROVER_assert(error == NULL || err_filled(error), "failure => error struct has a non-OK code and a NUL-terminated message");
-    __CPROVER_assert(!G_stream_open && G_fclose_calls == (G_fopen_calls == 1 && G_fopen_path == G_path_str && G_fclose_calls ? 1u : 0u),
-                     "failure => the stream is not left open, closed at most once");
+    __CPROVER_assert(!G_stream_open && G_fclose_calls == G_fopen_ok && (G_fopen_calls == 0 || G_fopen_path == G_path_str),
+                     "failure => the stream opened on the given path is closed exactly once, never left open");
     __CPROVER_assert(!G_arena_live, "failure => arena destroyed if it was initialised");
 #ifdef CQV_CREATE_STRICT
-    __CPROVER_assert(G_fclose_calls == 0 || G_remove_calls == 1, "failure after a successful fopen => the created file is removed");
+    __CPROVER_assert(G_fopen_ok == 0 || G_remove_calls == 1, "failure after a successful fopen => the created file is removed");
 #endif
-    if (G_fopen_calls == 1 && G_fclose_calls == 0) CQV_CANARY("fopen can fail");
-    if (G_fclose_calls == 1) CQV_CANARY("failure after fopen succeeded");
-    if (G_remove_calls == 1) CQV_CANARY("failed create removes the file");
+    /* canaries depend on stub ghosts only (which environment call failed), not on the code's reaction */
+    if (G_fopen_calls == 1 && G_fopen_ok == 0) CQV_CANARY("fopen can fail");
+    if (G_fopen_ok == 1) CQV_CANARY("failure after fopen succeeded");
     if (G_fopen_calls == 0) CQV_CANARY("failure before fopen");
   }
   free_schema(sc);
@@ -515,7 +515,7 @@ void h_create_file(void) {
   carquet_schema_t *sc = mk_schema();
   carquet_writer_options_t opt;
   carquet_error_t *error = mk_err();
-  G_stream_open = 1; G_arena_live = 0; G_rg_live = 0;
+  G_stream_open = 1; G_arena_live = 0; G_rg_live = 0; G_arena = NULL;
   G_fopen_calls = 0; G_fclose_calls = 0; G_remove_calls = 0; G_arena_destroy_calls = 0;
   uint64_t req0 = G_bytes_requested;
   carquet_writer_t *w = carquet_writer_create_file(G_stream, sc, nondet_bool() ? &opt : NULL, error);
@@ -530,8 +530,8 @@ void h_create_file(void) {
   } else {
     __CPROVER_assert(error == NULL || err_filled(error), "failure => error struct has a non-OK code and a NUL-terminated message");
     __CPROVER_assert(!G_arena_live, "failure => arena destroyed if it was initialised");
-    if (G_arena_destroy_calls == 1) CQV_CANARY("create_file can fail after arena init");
-    if (G_arena_destroy_calls == 0) CQV_CANARY("create_file can fail before arena init");
+    if (G_arena != NULL) CQV_CANARY("create_file can fail after arena init");
+    if (G_arena == NULL) CQV_CANARY("create_file can fail before arena init");
   }
   free_schema(sc);
   free(error);
